@@ -48,7 +48,7 @@ def bank_of(model):
 
 
 def train_case(args):
-    tid, h, seed = args
+    tid, h, seed, graphs = args
     import jax
     import jax.numpy as jnp
     import jax.random as jr
@@ -110,6 +110,24 @@ def train_case(args):
         stats["max_defect_after_training"] = worst_all
         if bad_runs >= 2:
             fails.append({"key": dict(key, what="the trained model is no longer equivariant", defect=worst_all)})
+        # typing calculus at the TRAINED parameter values: every ConvContract / GroupNorm / VectorNeuronNonlinear instance of the returned
+        # model must still be its well-typed data-flow graph (EquivCalculus.tla); an instance that is not gets a layer-level equation
+        # test at its trained parameters (tolerance 1e-4 / 2e-3 instead of the model-level 1e-2)
+        from harness import equivcalc
+        calc = {"instances": 0, "bound": 0, "unbound": []}
+        for li, layer in enumerate(equivcalc.layer_instances(trained)):
+            calc["instances"] += 1
+            bad = [r for r in equivcalc.bind_instance(layer, D, graphs, seed + li) if r[2] != "bound"]
+            if not bad:
+                calc["bound"] += 1
+                continue
+            d1, t1, tol = equivcalc.instance_defect(layer, D, seed + li)
+            d2, t2, _ = equivcalc.instance_defect(layer, D, seed + li + 1000)
+            calc["unbound"].append({"layer": type(layer).__name__, "why": [list(map(str, r[1:])) for r in bad[:2]], "layer_defects": [d1, d2]})
+            if d1 > tol and d2 > tol:
+                fails.append({"key": dict(key, what="a layer of the trained model does not commute with the group (layer-level test at the trained parameters)",
+                                          layer=type(layer).__name__, type=t1, defect=max(d1, d2))})
+        stats["typing_calculus"] = calc
     return trace, fails, stats, key
 
 
@@ -127,7 +145,9 @@ def main(tier):
         if not r.ok:
             chk.spec_violation(r, "training-loop design invariant fails in the specification")
     hs = histories(tier)
-    results = core.pmap(train_case, [(i + 1, h, core.SEED * 5 + i) for i, h in enumerate(hs)], procs=8, crash_value=None)
+    from harness import equivcalc
+    graphs = equivcalc.run_mc(chk)
+    results = core.pmap(train_case, [(i + 1, h, core.SEED * 5 + i, graphs) for i, h in enumerate(hs)], procs=8, crash_value=None)
     results = [r for r in results if r is not None]
     verdicts = tracelib.validate(chk, "trace/Trace_TrainLoop.tla", [t for t, _, _, _ in results], workers=4)
     for (trace, fails, stats, key), h in zip(results, hs):
@@ -154,8 +174,9 @@ def replay(path):
     import json
     pl = json.load(open(path))
     core._pool_init()
-    trace, fails, stats, key = train_case((1, pl["history"], core.SEED * 5))
+    from harness import equivcalc
     chk = core.Check("C09", "quick")
+    trace, fails, stats, key = train_case((1, pl["history"], core.SEED * 5, equivcalc.run_mc(chk)))
     v = tracelib.validate(chk, "trace/Trace_TrainLoop.tla", [trace], workers=2)[1]
     bad = list(fails)
     if v[0] == "REJECT":
